@@ -143,6 +143,10 @@ size_t mbsnrtowcs(wchar_t *dst, const char **src_p, size_t srclen, size_t dstlen
 				w++;
 			count++;
 			s += clen;
+		} else if (clen == -2) {
+			/* input ends inside a character: it is in *ps, stop at end of input */
+			s = s_end;
+			break;
 		} else if (clen < 0) {
 			/* invalid encoding */
 			if (dst)
